@@ -105,11 +105,13 @@ var Meta = map[string]PropMeta{
 		EnumTotal: 2448, // 34 vectors x 6 types x 6 option sets x 2 sides, enumerated first by the thorough tier
 	},
 	"C06": {
-		Level:       "exploration",
-		Technique:   "deterministic simulation with a hostile reference receiver: the real daemon (directory- and fs.FS-backed modules, several modules whose names are prefixes of each other) receives request paths from a traversal grammar; the raw server byte stream is scanned for canary secrets and the decoded file list is checked against the module's real contents",
-		Rule:        "module line from {mod, modx, mo, modfs} and one of 45 path forms (module/.., module/../x, module//../, absolute paths, paths through inside symlinks that point to an outside directory/file/absolute directory/.., empty and '.' components, other-module prefixes, NUL and blank components) with a random subset of -r -l -c -t -p -D -o -g; the reference receiver requests every listed regular file. Oracle: the server's raw bytes never contain the content (first 40/last 64 bytes), the MD4 or the name of an object outside the module (names may occur only as link targets of inside symlinks), nor another module's content; every decoded list entry names an existing object inside the module reached without a symlink or '..'. Non-trivial = every run The hostile receiver also requests the 'content' of one non-regular entry (symlink, directory, device) per session; the module contains an absolute symlink that only looks internal.",
-		Assumptions: []string{"canary contents are 2 KB random strings so accidental occurrence is impossible", "link target strings of symlinks inside the module are module data and may name outside paths"},
-		Real:        realCommon, Stub: append([]string{"hostile peer: reference receiver"}, stubCommon...),
+		ExtraTags:        "nonamespacing",
+		MaxJobsPerWorker: 200,
+		Level:            "exploration",
+		Technique:        "deterministic simulation with a hostile reference receiver: the real daemon (directory- and fs.FS-backed modules, several modules whose names are prefixes of each other) receives request paths from a traversal grammar; the raw server byte stream is scanned for canary secrets and the decoded file list is checked against the module's real contents",
+		Rule:             "module line from {mod, modx, mo, modfs} and one of 45 path forms (module/.., module/../x, module//../, absolute paths, paths through inside symlinks that point to an outside directory/file/absolute directory/.., empty and '.' components, other-module prefixes, NUL and blank components) with a random subset of -r -l -c -t -p -D -o -g; the reference receiver requests every listed regular file. Oracle: the server's raw bytes never contain the content (first 40/last 64 bytes), the MD4 or the name of an object outside the module (names may occur only as link targets of inside symlinks), nor another module's content; every decoded list entry names an existing object inside the module reached without a symlink or '..'. Non-trivial = every run The hostile receiver also requests the 'content' of one non-regular entry (symlink, directory, device) per session; the module contains an absolute symlink that only looks internal.",
+		Assumptions:      []string{"canary contents are 2 KB random strings so accidental occurrence is impossible", "link target strings of symlinks inside the module are module data and may name outside paths"},
+		Real:             realCommon, Stub: append([]string{"hostile peer: reference receiver"}, stubCommon...),
 		Quick:    q(8000, 35*time.Second),
 		Thorough: q(1000000, 20*time.Minute),
 	},
